@@ -286,3 +286,32 @@ Proof.
   cbv zeta. split; intros t Ht; cbn [length] in Ht;
     (do 8 (destruct t as [|t]; [vm_compute; intros; try reflexivity; try congruence|])); exfalso; apply (Nat.lt_irrefl 8); do 8 apply Nat.succ_lt_mono in Ht; inversion Ht.
 Qed.
+
+(* UPSCALING SUCCEEDS (eam_plus): when the fine links join 8-neighbouring pixels and the effective-area map contains the middle
+   rows and columns of every coarse cell (both checked on every input by kernel 914), the walk from an outlet pixel ALWAYS
+   answers -- while no effective-area pixel has been passed the current pixel is still inside the 3 x 3 block of cells around
+   the start cell -- so the coarse network of eam_plus holds cell indices and the missing value only, never the error value;
+   the 8-neighbour hypothesis cannot be dropped (eam_plus_answers_needs_d8) *)
+From PF Require Import UpscaleNoErr.
+Theorem eam_plus_answers : forall sds subncol cs ncol ea sq, 0 < cs -> 0 < subncol -> subncol <= ncol * cs ->
+  (forall t, t < length sds -> sd sds t < length sds -> in_d8 t (sd sds t) subncol = true) ->
+  check_cross sds ea subncol cs = true -> topo sds sq ->
+  forall out idx0 s, s < length sds -> sd sds s < length sds -> cellof subncol cs ncol s = idx0 -> In s sq ->
+  exists t, ihu_walk sds subncol cs ncol ea (S (length sds)) out idx0 s None = Some t.
+Proof. exact UpscaleNoErr.eam_plus_answers. Qed.
+Print Assumptions eam_plus_answers.
+Theorem up_eam_plus_no_err : forall sds sq upa subnrow subncol cs ea, 0 < cs -> 0 < subncol -> length sds = subnrow * subncol ->
+  topo sds sq -> complete sds sq ->
+  (forall t, t < length sds -> sd sds t < length sds -> in_d8 t (sd sds t) subncol = true) ->
+  check_cross sds ea subncol cs = true ->
+  forall x, In x (fst (fst (up_eam_plus sds upa subnrow subncol cs ea))) ->
+  (x < cdiv subnrow cs * cdiv subncol cs \/ x = cdiv subnrow cs * cdiv subncol cs) /\ x <> ERR (cdiv subnrow cs) (cdiv subncol cs).
+Proof. exact UpscaleNoErr.up_eam_plus_no_err. Qed.
+Print Assumptions up_eam_plus_no_err.
+Theorem eam_plus_answers_needs_d8 :
+  exists sds sq upa subnrow subncol cs ea, topo sds sq /\ complete sds sq /\ length sds = subnrow * subncol /\
+    check_cross sds ea subncol cs = true /\ check_d8 sds subncol = false /\
+    (let nrow := cdiv subnrow cs in let ncol := cdiv subncol cs in
+     fst (fst (up_eam_plus sds upa subnrow subncol cs ea)) = [ERR nrow ncol; 1; 2]).
+Proof. exact UpscaleNoErr.eam_plus_answers_needs_d8. Qed.
+Print Assumptions eam_plus_answers_needs_d8.
